@@ -50,6 +50,8 @@ pub enum Fate {
     Deliver,
     Drop,
     Dup,
+    /// deliver now and replay the same datagram much later (after the receiver's journal rotated the record out)
+    DupLate(u64),
     Delay(u64),
     Trunc(usize),
     Flip(usize),
@@ -81,6 +83,7 @@ impl Faults {
                         Value::String(s) if s == "drop" => Fate::Drop,
                         Value::String(s) if s == "dup" => Fate::Dup,
                         Value::Array(a) if a[0] == "delay" => Fate::Delay(a[1].as_u64().unwrap()),
+                        Value::Array(a) if a[0] == "duplate" => Fate::DupLate(a[1].as_u64().unwrap()),
                         Value::Array(a) if a[0] == "trunc" => Fate::Trunc(a[1].as_u64().unwrap() as usize),
                         Value::Array(a) if a[0] == "flip" => Fate::Flip(a[1].as_u64().unwrap() as usize),
                         _ => Fate::Deliver,
@@ -237,6 +240,12 @@ impl Net {
                 ev["fate"] = json!("dup");
                 sends.push((self.latency, data.to_vec(), 0));
                 sends.push((self.latency * 3, data.to_vec(), 1));
+            }
+            Fate::DupLate(ms) => {
+                ev["fate"] = json!("dup");
+                ev["arg"] = json!(ms);
+                sends.push((self.latency, data.to_vec(), 0));
+                sends.push((self.latency + Duration::from_millis(ms), data.to_vec(), 1));
             }
             Fate::Delay(ms) => {
                 ev["fate"] = json!("delay");
